@@ -33,6 +33,10 @@ HIST_PROFILES = [[3, 1, 2], [1], [4, 4, 1, 2]]
 def hist_points(name, tier):
     g = sse.grid(name, 'quick')
     pts = [g[0], g[1]]
+    if name == 'CJJ14.Pi2Lev':
+        pts += [x for x in g if x[0] in ('quad1', 'quad6', 'quad3')]      # pointer width differs from the identifier size
+    if name in ('CJJ14.PiPtr', 'CJJ14.PiPack'):
+        pts += [x for x in g if x[0] in ('B0', 'b0', 'id1')]
     if tier != 'quick':
         pts += g[2:6]
     return pts
@@ -42,7 +46,12 @@ def units(tier, seed):
     us = []
     for name in sse.SCHEMES:
         for label, cfg in hist_points(name, tier):
-            for pi, prof in enumerate(HIST_PROFILES):
+            profs = list(HIST_PROFILES)
+            if name == 'CJJ14.Pi2Lev':          # one keyword of every size class (small / medium / large) in one index
+                b_, B_, Bp, bp = cfg['param_b'], cfg['param_B'], cfg['param_B_prime'], cfg['param_b_prime']
+                mixed = [b_, min(B_ * bp, b_ + 1 if b_ + 1 <= B_ * bp else B_ * bp), min(B_ * Bp * bp - 1, B_ * bp + 1)]
+                profs += [mixed, mixed[::-1]]
+            for pi, prof in enumerate(profs):
                 if sse.valid_profile(name, cfg, prof):
                     us.append(('hist/%s/%s/%d' % (name, label, pi), {'kind': 'hist', 'scheme': name, 'label': label, 'cfg': cfg, 'profile': prof}))
         for label, cfg in sse.grid(name, tier):
@@ -89,7 +98,8 @@ class Hist:
         self.single = []
         for i, w in enumerate(self.alphabet):
             edb1, toks = self.fresh()
-            self.single.append(self.norm(self.scheme.Search(edb1, toks[i]).get_result_list()))
+            alone = self.L.SSEScheme(copy.deepcopy(cfg1))       # a scheme object that has never searched anything else
+            self.single.append(self.norm(alone.Search(edb1, toks[i]).get_result_list()))
 
     def norm(self, got):
         return frozenset(got) if self.name in sse.SET_RESULT else tuple(got)
